@@ -21,13 +21,13 @@ ASSUMPTIONS = ["graphs are built through the public API (DAGs) or directly on Ci
 
 
 def bounds(tier):
-    return {"dag_nodes": 5 if tier == "quick" else 6, "subset_cap": 5 if tier == "quick" else 3,
+    return {"dag_nodes": 6, "subset_cap": 2 if tier == "quick" else 4,
             "digraph_nodes": 4, "kcuts_k": [1, 2, 3, 4]}
 
 
 def jobs(tier, seed):
     b = bounds(tier)
-    n = 16 if tier == "quick" else 64
+    n = 48 if tier == "quick" else 96
     js = [{"sub": "dag", "chunk": i, "of": n, "n": b["dag_nodes"], "cap": b["subset_cap"]} for i in range(n)]
     js += [{"sub": "digraph", "chunk": i, "of": 4, "n": 4} for i in range(4)]
     js.append({"sub": "dag", "chunk": 1, "of": n, "n": b["dag_nodes"], "cap": b["subset_cap"],
